@@ -15,6 +15,27 @@ CLAIMED = {
    technique='Coq proof over Q-dense set semantics + translator tie (GenEq by lia) + exhaustive in-Coq correspondence',
    ref='5/C06'),
 }
+CLAIMED['C05'] = dict(
+   text='Machine-checked proof that the model of BaseShapeProtocol.contains/intersects is the conjunction of the spatial test '
+        '(universally quantified) and the temporal test, the temporal factor being the set-theoretic one proved in C06 '
+        '(shared instant / inclusion over a dense timeline), that either shape lacking dt gives the spatial test alone, and that a '
+        'datetime is the zero-length interval. Model tied to _base.py and time.py on every run by the translator (GenEq lemmas for all '
+        'arguments) and by an in-Coq correspondence over all ordered pairs of 15 shape fixtures x dt placements, constructor and set_dt.',
+   note='Trusted: Coq kernel + vm_compute; tools/translate.py; datetime -> integer microseconds UTC abstraction; harness. '
+        'Spatial predicates are abstract in the theorems (C02 decides them). No axioms.',
+   technique='Coq proof (composition law + C06 set semantics) + translator tie + in-Coq correspondence',
+   ref='5/C05')
+CLAIMED['C04'] = dict(
+   text='Machine-checked proof, for every member-level predicate and every member list, that the model of the MultiShapeBase / '
+        'single-shape member loops computes exists/forall over members and parts (receiver and argument side), is invariant under member '
+        'permutation, that bounds are the bounding box of the member bounds (each side attained) and that split returns the members in order '
+        'with the parent dt and properties. The model is tied to the code by an oracle-instantiated in-Coq correspondence: the '
+        'implementation own member-level answers are combined by the model and compared with the implementation multi-level answer, '
+        'with the deciding member at every position.',
+   note='Trusted: Coq kernel + vm_compute; the hand statement that ShapeM mirrors the loops (checked by correspondence only, no translator '
+        'for loops); harness. Member-level truth is C01/C02. No axioms.',
+   technique='Coq proof (loops = existsb/forallb, permutation invariance, min/max folds) + oracle-instantiated in-Coq correspondence',
+   ref='5/C04')
 NOT_YET = {}
 NA = {
  'C20': 'The observable is the composition of three third-party codecs (pyshp binary I/O, GeoPandas/GEOS, fastkml XML); '
